@@ -552,14 +552,15 @@ class Sandbox:
         self.mock_function('input', self._track_inputs(context.inputs))
         # Override builtin functions
         self._reset_builtins(self.data)
-        builtins = self._module_overrides.pop('__builtins__', {})
+        # Note: the overrides are never taken out of `_module_overrides`, even
+        # temporarily, so an interrupted setup cannot lose them.
+        builtins = self._module_overrides.setdefault('__builtins__', {})
         self._mock_builtins(self.data, builtins)
         # Override sys modules
         overridden_modules = sys.modules.copy()
         for name, value in self._module_overrides.items():
-            if value is not True:
+            if name != '__builtins__' and value is not True:
                 overridden_modules[name] = value
-        self._module_overrides['__builtins__'] = builtins
         # Handle allowing *actual* printing to the real stdout console
         if self._module_overrides['__builtins__'].get('print') is not True:
             self._current_stdout.append(mocked.CapturingStringIO())
